@@ -584,12 +584,39 @@ func gen(r *hx.Rng, n int, tier string) []string {
 				}
 			}
 		}
+		// an operator first sends its legitimate message, then further messages with the same network
+		// key, inner key and hash but claiming seats of OTHER operators (silent so far or not)
+		if r.Chance(1, 4) {
+			p := r.Range(1, ns)
+			if k := o.ops[p-1]; p != o.self && k >= 1 {
+				first := msgT{idx: uint8(p), netKey: k, msgKey: k, sess: o.sess, hash: o.pref, kind: 0}
+				msgs := []msgT{first}
+				for j := r.Range(1, 3); j > 0; j-- {
+					sp := first
+					sp.idx = uint8(r.Range(0, ns+1))
+					msgs = append(msgs, sp)
+				}
+				if r.Bool() {
+					o.msgs = append(msgs, o.msgs...)
+				} else {
+					o.msgs = append(o.msgs, msgs...)
+				}
+			}
+		}
 		// thresholds around the plausible support size
 		o.n = ns
 		o.h = r.Range(1, ns)
 		o.q = r.Range(o.h, ns)
 		if r.Chance(1, 10) {
 			o.n = r.Range(ns, ns+4)
+		}
+		if o.proto == "beacon" && r.Chance(1, 3) {
+			// group size and honest threshold both odd (integer-division boundary of the midpoint)
+			o.n |= 1
+			o.h = o.h | 1
+			if o.h > o.n {
+				o.h = o.n
+			}
 		}
 		ops = append(ops, fmtOp(o))
 	}
